@@ -524,10 +524,13 @@ start:
 					s.set(v, s.get(v.X))
 				}
 			case *ir.Load:
+				// We know nothing about the value stored in a loaded interface
+				// value, either. Leaving Inner unset would make it the identity
+				// element, which Merge ignores.
 				if _, ok := v.X.(*ir.Global); ok {
-					s.setOuter(v, MaybeNilGlobal)
+					s.set(v, ValueNilness{Inner: MaybeNil, Outer: MaybeNilGlobal})
 				} else {
-					s.setOuter(v, MaybeNil)
+					s.set(v, ValueNilness{Inner: MaybeNil, Outer: MaybeNil})
 				}
 				s.setOuter(v.X, NeverNil)
 			case *ir.FieldAddr:
